@@ -19,6 +19,10 @@ def main():
         import json
         d = json.load(open(a.replay))
         a.pid = d['property']
+        rp_ = d.get('replay') if isinstance(d.get('replay'), dict) else {}
+        if rp_.get('interpreter') == 'python -O' and sys.flags.optimize == 0:
+            # the violation was found in an interpreter started with -O: replay it the same way
+            os.execv(sys.executable, [sys.executable, '-O', os.path.abspath(__file__), 'replay', '--replay', a.replay])
     mod = importlib.import_module('check_%s' % a.pid)
     with common.Scratch():
         common.repo_import_setup()
